@@ -4,12 +4,19 @@
     body_cd_run <tag> <op> ...   as `cd_run` of Driver/CDict.lean, but getitem / setitem / delitem / contains / haskey /
                                  get / setdefault / pop / popitem / move_to_end run through the TRANSLATED methods (their
                                  `super().<m>` = the step of the plain ordered dict of the model, `to_unicode` = identity);
-                                 every other op is the model's step
+                                 every other op is the model's step.  Wave 8: init / update / copy run through the
+                                 TRANSLATED `__init__` / `update` / `copy` (Gen/BodiesCDictMeta.lean) with the pieces of
+                                 ICal/Model/CDictInitPieces.lean (the pairs as one positional argument)
+    body_cd_split <init|update> <pairs0> <kw pairs> <D|P><pairs> ...
+                                 `d = CaselessDict(pairs0)`, then `d.update(m.., **kw)` or `CaselessDict(m.., **kw)`, each m a dict
+                                 (D) or a list of pairs (P): ok:I<items> | err:<E>, through the translated bodies
 -/
 import ICal.Driver.CDict
 import ICal.Gen.BodiesCDict
+import ICal.Model.CDictInitPieces
+import ICal.Driver.BodiesProto
 namespace ICal.Driver
-open ICal.Proto ICal.CDict ICal.Gen.BodiesCDict
+open ICal.Proto ICal.CDict ICal.Gen.BodiesCDict ICal.Bodies
 
 private def sGetitem (s : Store Nat) (k : Str) : Store Nat × Out Nat := (s, outGetitem s k)
 private def sSetitem (s : Store Nat) (k : Str) (v : Nat) : Store Nat × Out Nat := (odSet s k v, .none)
@@ -40,6 +47,15 @@ def bodyStep (s : Store Nat) : Op Nat → Store Nat × Out Nat
   | .pop k d => cd_pop id sPop s k d
   | .popitem => cd_popitem cdPopitem s
   | .moveToEnd k last => cd_move_to_end id sMoveToEnd s k last
+  | .init args => match cdInitP id [⟨true, args⟩] ⟨true, []⟩ with
+    | .ok s' => (s', .none)
+    | .error _ => (s, .err .KeyError)
+  | .update l => match cdUpdateP id s [⟨false, l⟩] ⟨true, []⟩ with
+    | .ok s' => (s', .none)
+    | .error _ => (s, .err .KeyError)
+  | .copy => match cdCopyP id s with
+    | .ok s' => (s', .none)
+    | .error _ => (s, .err .KeyError)
   | o => step upper s o
 
 def bodyTrace : Store Nat → List (Op Nat) → List (Out Nat × List Str)
@@ -55,6 +71,22 @@ def handleBodiesCDict (op : String) (args : List String) : Option String :=
       if (l.all (fun o => (opKeys o).all asciiStr)) then
         some (";".intercalate ((bodyTrace ([] : Store Nat) l).map (fun r => encOut r.1 ++ "@" ++ encStrList r.2)))
       else some "unmodelled"
+  | "body_cd_split", which :: p0 :: kw :: ms =>
+    let decM (m : String) : Option (MapArg Nat) :=
+      match m.toList with
+      | 'D' :: r => (decPairs (String.ofList r)).map (fun l => ⟨true, l⟩)
+      | 'P' :: r => (decPairs (String.ofList r)).map (fun l => ⟨false, l⟩)
+      | _ => none
+    match decPairs p0, decPairs kw, ms.mapM decM with
+    | some l0, some lk, some args =>
+      if !((l0 ++ lk ++ args.flatMap (·.pairs)).all (fun p => asciiStr p.1)) then some "unmodelled" else
+      let r : ICal.PyRT.Py (Store Nat) :=
+        if which == "init" then cdInitP id args ⟨true, lk⟩
+        else match cdInitP id [⟨true, l0⟩] ⟨true, []⟩ with
+          | .ok s => cdUpdateP id s args ⟨true, lk⟩
+          | .error e => .error e
+      some (pyRes (fun s => "I" ++ encPairs s) r)
+    | _, _, _ => some "bad-args"
   | _, _ => none
 
 end ICal.Driver
